@@ -340,7 +340,9 @@ def outcome_of_exception(e):
     args = []
     for a in getattr(e, "args", ()):
         args.append(a if isinstance(a, (int, str, float, type(None))) else repr(a)[:80])
-    return {"kind": "exc", "type": type(e).__name__, "args": args, "t": ds.S.now}
+    import traceback
+    tb = [(os.path.basename(f.filename), f.lineno, f.name) for f in traceback.extract_tb(e.__traceback__)][-6:]
+    return {"kind": "exc", "type": type(e).__name__, "args": args, "t": ds.S.now, "tb": tb}
 
 
 def run_parallel_case(case, consumer=None, setup=None):
@@ -372,6 +374,9 @@ def run_parallel_case(case, consumer=None, setup=None):
         for c, call in enumerate(case["calls"]):
             rec = {"c": c, "t0": s.now, "outcome": None, "over": False, "failed_at": None, "values": []}
             w.calls.append(rec)
+            if call.get("phantom"):          # only used by an overlapping call attempt
+                rec["outcome"] = {"kind": "phantom"}; rec["over_seq"] = len(w.events)
+                continue
             w.cur_call = c
             w.ev("call_begin", c)
             for hk in w.call_hooks:
@@ -390,10 +395,11 @@ def run_parallel_case(case, consumer=None, setup=None):
                         rec["outcome"] = {"kind": "ok", "t": s.now}
             except BaseException as e:  # noqa
                 rec["outcome"] = outcome_of_exception(e)
-            rec["over"] = True
-            rec["over_seq"] = len(w.events)
             rec["t1"] = s.now
-            w.frozen_pulls[c] = w.pulled[c]
+            if rec.get("defer_over"):
+                rec["over_seq"] = 10 ** 12       # stamped later by the property (asynchronous abandon)
+            else:
+                mark_over(w, rec)
             w.ev("call_end", c, rec["outcome"]["kind"])
         w.cur_call = None
         if case.get("managed"):
@@ -408,6 +414,12 @@ def run_parallel_case(case, consumer=None, setup=None):
     w.call_hooks = getattr(w, "call_hooks", [])
     s.run(main)
     return w, s
+
+
+def mark_over(w, rec):
+    rec["over"] = True
+    rec["over_seq"] = len(w.events)
+    w.frozen_pulls[rec["c"]] = w.pulled[rec["c"]]
 
 
 def default_consumer(w, s, p, c, gen, rec):
@@ -440,7 +452,8 @@ def base_outcome(w, s, verdict, nontrivial=None, sample=None):
         "steps": s.steps, "switches": s.switches, "sim_time": round(s.now, 4),
         "faults": dict(faults), "probes": dict(w.probes),
         "nontrivial": bool(s.preempt_switches or s.switches > 4) if nontrivial is None else nontrivial,
-        "extra": {"events": s.nev, "preempt_switches": s.preempt_switches, "dec_mismatch": s.dec_mismatch},
+        "extra": {"events": s.nev, "preempt_switches": s.preempt_switches, "dec_mismatch": s.dec_mismatch,
+                  "clock_jumps_past_runnable": s.jumps},
     }
     if verdict is not None:
         out["decisions"] = s.decisions
